@@ -455,9 +455,12 @@ func cacheFailures(rep *report.Report) {
 			}
 			d := st.VerifDump()
 			doc, perr := parseCache(c.Data)
-			if perr != nil {
+			if len(c.Writes) == 0 {
+				// five installs, at most one failing write: a cache whose Read failed is still the cache
+				bad("never-written", "the store installed values five times and never wrote its cache successfully")
+			} else if perr != nil {
 				bad("document", perr.Error())
-			} else if len(c.Writes) > 0 {
+			} else {
 				for n, e := range d {
 					ce := doc[n]
 					if ce == nil || ce.Secret == nil || ce.Secret.Version != e.Version {
